@@ -439,6 +439,29 @@ def operators(run):
                        witness=None if updated else ctx.model(),
                        text="w += v with v a non-zero LogRepFloat always goes through log_sum_exp (never skipped)")
     it2.explore(h_ieee_ops, "ieee-ops")
+
+    # in-place accumulation of a PLAIN number into a weight of any magnitude (IEEE model): adding a plain zero is the identity on the log value -- also for
+    # weights whose plain value under- or overflows -- and never raises
+    def h_ieee_iadd_plain(ctx):
+        mod = it2.module(MOD)
+        ex = Exec(it2, ctx, mod, mod.env, "harness")
+        cls = mod.resolve("LogRepFloat", ctx)
+        a = finite(ctx, "log_val")
+        w = ex.call(cls, [], {"log_val": a})
+        zero = [0, 0.0][ctx.choose(2, "int-or-float-zero")]
+        try:
+            res = ex.inplace(ast.Add, w, zero)
+        except PyRaise as pr:
+            ctx.run.ob("utils.LogRepFloat/ieee[+= plain zero]-is-the-identity", core.FAILED, "pyvc", detail=f"raised {exc_name(pr.exc)}; model {ctx.model()}", witness=ctx.model())
+            return
+        lv = res.attrs["log_val"] if isinstance(res, Obj) else None
+        if lv is None or (isinstance(lv, float) and (lv != lv or lv in (float("inf"), float("-inf")))):
+            ctx.run.ob("utils.LogRepFloat/ieee[+= plain zero]-is-the-identity", core.FAILED, "pyvc",
+                       detail=f"`w += {zero!r}` turned log_val into {lv} for a finite log value; model {ctx.model()}", witness=ctx.model())
+            return
+        ctx.prove("utils.LogRepFloat/ieee[+= plain zero]-is-the-identity", lift(lv) == a,
+                  text="w += 0 leaves log_val unchanged for log values of ANY magnitude (the plain value of w may be 0.0, subnormal or inf)")
+    it2.explore(h_ieee_iadd_plain, "ieee-iadd-plain", roots=[[0], [1]])
     return it
 
 
